@@ -7,13 +7,13 @@
 From Irismod Require Import Genesis.Store.
 (** No free-standing invariant:
 
-    For record, coinswap, random, nft, mt, htlc and token the reachability invariant [invb] is DERIVED from the other groups'
+    For record, coinswap, random, nft, mt, htlc, token and farm the reachability invariant [invb] is DERIVED from the other groups'
     message-level models ([Genesis/Link<Mod>.v]): an abstraction [abs] maps a state of that model to the
     genesis-level state (renaming ids by an injective numbering, sorting the stores the way the KV store
     iterates), and [reachable_<mod>] proves [invb (abs (run h)) = true] for every history [h] from that
     model's proved invariants (plus small extra invariants proved over its step function).  The C12
     statements then quantify over histories. *)
-From Irismod Require Genesis.LinkRecord Genesis.LinkCoinswap Genesis.LinkRandom Genesis.LinkNft Genesis.LinkMt Genesis.LinkHtlc Genesis.LinkToken.
+From Irismod Require Genesis.LinkRecord Genesis.LinkCoinswap Genesis.LinkRandom Genesis.LinkNft Genesis.LinkMt Genesis.LinkHtlc Genesis.LinkToken Genesis.LinkFarm.
 
 Module LinkRecordC12.
 Import Genesis.LinkRecord.
@@ -261,3 +261,56 @@ Theorem token_history_roundtrip :
 Proof. exact LinkToken.token_history_roundtrip. Qed.
 Print Assumptions token_history_roundtrip.
 End LinkTokenC12.
+
+(** ** farm: [invb] derived from the message-level model of the farm group ([Farm/Model.v], [Farm/Inv.v] [inv],
+    [Farm/Proofs.v], [Farm/History.v] [pool_step_lemma] / [new_pool_lemma], [Farm/Pres2.v] [end_block_fold]) plus the
+    invariant [F] of [Genesis/LinkFarm.v] (rule totals positive, stored parameters valid).  The exported state is a
+    BLOCK-BOUNDARY state: [step_state (run (init b h0) steps) NextBlock] for any valid steps (messages of
+    non-module accounts, MsgUpdateParams included, and block boundaries) from a genesis with empty farm escrow.
+    The three farm fixes of this group are in the code and in the models (a stake is positive: [pi_pos]; a reward
+    per share may be zero; import at height h re-enqueues a pool ending at h).  Hypotheses left: the numberings
+    [ra] (accounts) and [rd] (denoms) are non-negative and [rd] is injective; description lengths are at most 280. *)
+Module LinkFarmC12.
+Import Genesis.LinkFarm.
+
+Theorem reachable_farm :
+  forall ra rd desc dlen : Z -> Z,
+  (forall a, 0 <= ra a) -> (forall d, 0 <= rd d) -> (forall a b, rd a = rd b -> a = b) -> (forall id, dlen id <= 280) ->
+  forall b h0 steps, MP.genesis_ok b h0 -> Forall MI.valid_step steps ->
+  let s := M.step_state (M.run (M.init b h0) steps) M.NextBlock in
+  G.invb true (M.height s) (abs ra rd desc dlen s) = true.
+Proof. exact LinkFarm.reachable_farm. Qed.
+Print Assumptions reachable_farm.
+
+Theorem farm_history_export_validates :
+  forall ra rd desc dlen : Z -> Z,
+  (forall a, 0 <= ra a) -> (forall d, 0 <= rd d) -> (forall a b, rd a = rd b -> a = b) -> (forall id, dlen id <= 280) ->
+  forall b h0 steps, MP.genesis_ok b h0 -> Forall MI.valid_step steps ->
+  let s := M.step_state (M.run (M.init b h0) steps) M.NextBlock in
+  G.validate true false (G.export (abs ra rd desc dlen s)) = true.
+Proof. exact LinkFarm.farm_history_export_validates. Qed.
+Print Assumptions farm_history_export_validates.
+
+(** the new chain starts at the height of the next block: import does not panic and gives back the state itself *)
+Theorem farm_history_roundtrip :
+  forall ra rd desc dlen : Z -> Z,
+  (forall a, 0 <= ra a) -> (forall d, 0 <= rd d) -> (forall a b, rd a = rd b -> a = b) -> (forall id, dlen id <= 280) ->
+  forall b h0 steps, MP.genesis_ok b h0 -> Forall MI.valid_step steps ->
+  let s := M.step_state (M.run (M.init b h0) steps) M.NextBlock in
+  G.import true true false (M.height s) (G.export (abs ra rd desc dlen s)) = Some (abs ra rd desc dlen s).
+Proof. exact LinkFarm.farm_history_roundtrip. Qed.
+Print Assumptions farm_history_roundtrip.
+
+(** second export = first; pools, rules, farmers, parameters read the same; the new chain's queue holds exactly the
+    pools still to be closed *)
+Theorem farm_history_fixpoint_and_queries :
+  forall ra rd desc dlen : Z -> Z,
+  (forall a, 0 <= ra a) -> (forall d, 0 <= rd d) -> (forall a b, rd a = rd b -> a = b) -> (forall id, dlen id <= 280) ->
+  forall b h0 steps, MP.genesis_ok b h0 -> Forall MI.valid_step steps ->
+  let s := M.step_state (M.run (M.init b h0) steps) M.NextBlock in
+  exists s', G.import true true false (M.height s) (G.export (abs ra rd desc dlen s)) = Some s'
+    /\ G.export s' = G.export (abs ra rd desc dlen s) /\ G.queries s' = G.queries (abs ra rd desc dlen s)
+    /\ G.queue s' = G.queue_at (M.height s) (G.pools s').
+Proof. exact LinkFarm.farm_history_fixpoint_and_queries. Qed.
+Print Assumptions farm_history_fixpoint_and_queries.
+End LinkFarmC12.
